@@ -247,7 +247,7 @@ def interesting_cuts(rng, body, key, k):
 
 
 def random_cuts(rng, n, k):
-    if n < 2:
+    if n < 2 or k < 1:
         return '-'
     cuts = sorted(set(rng.randrange(1, n) for _ in range(k)))
     return ','.join(str(c) for c in cuts)
@@ -400,6 +400,152 @@ def gen_cases(ctx):
     return cases
 
 
+
+# ------------------------------------------------------------------------------------------------
+# request-level cases through the real service (harness/C12_service.cpp)
+# ------------------------------------------------------------------------------------------------
+BUFS = [1, 2, 3, 7, 16, 64, 1000, 4096, 65536]
+
+
+def rq_expect(mode, cl, mp, parts, body, declared=None):
+    """independent statement of the property for a well-formed body whose length is the declared one"""
+    n = len(body)
+    if n == 0:
+        return '200/0'
+    if n > mp:
+        return '413'
+    if mode == 'r':
+        return '200/0'
+    if any((not p[2]) and len(p[3]) > cl for p in parts):
+        return '413'
+    return '200/' + expect_token(parts)
+
+
+def urlenc(rng, b):
+    out = bytearray()
+    for c in b:
+        if c == 0x20 and rng.random() < 0.7:
+            out += b'+'
+        elif chr(c).isalnum() and rng.random() < 0.9:
+            out.append(c)
+        else:
+            out += (b'%%%02X' if rng.random() < 0.5 else b'%%%02x') % c
+    return bytes(out)
+
+
+def gen_rq_cases(ctx):
+    rng = ctx.rng
+    cases = []
+
+    def line(mode, cl, mp, mem, buf, declared, ct, cuts, body, exp):
+        cases.append('rq %s %d %d %d %d %d %s %s %s %s' % (mode, cl, mp, mem, buf, declared, hexs(ct), cuts, hexs(body), exp))
+
+    def cuts_for(body, key):
+        n = len(body)
+        r = rng.random()
+        if r < 0.25:
+            return '-'
+        if r < 0.45:
+            return 'b%d' % rng.choice([1, 2, 3, 5, 7, 16, 64, 1024])
+        if r < 0.75:
+            return interesting_cuts(rng, body, key, rng.randrange(1, 8))
+        return random_cuts(rng, n, rng.randrange(1, 8))
+
+    # A. well-formed multipart bodies, limits swept around the sizes that matter
+    for i in range(ctx.scale(450, 6000)):
+        style = PLAIN if i % 3 == 0 else FANCY
+        key = gen_key(rng)
+        big = rng.random() < 0.12
+        nparts = rng.choice([0, 1, 1, 2, 2, 3, 4, 6, 10])
+        parts = gen_parts(rng, key, nparts if not big else min(nparts, 3), rng.choice([0, 3, 10, 30, 60, 200]) if not big else rng.choice([1500, 5000, 70000]))
+        body = encode_body(rng, key, parts, style)
+        ct = enc_ct(rng, key, style).replace(b'\0', b'x')
+        n = len(body)
+        fields = [len(p[3]) for p in parts if not p[2]]
+        files = [len(p[3]) for p in parts if p[2]]
+        for _ in range(2):
+            mode = rng.choice('nnmmr')
+            cl = rng.choice([10 ** 6] + [max(0, f + d) for f in fields for d in (-1, 0, 1)] + [0, 1])
+            mp = rng.choice([10 ** 6, 10 ** 6, n - 1, n, n + 1])
+            mem = rng.choice([0, 1, 64, 10 ** 6] + [max(0, f + d) for f in files + fields for d in (-1, 0, 1)])
+            buf = rng.choice(BUFS)
+            if n > 3000 and buf < 16:
+                buf = rng.choice([64, 1000, 4096, 65536])
+            sp = cuts_for(body, key)
+            if n > 3000 and sp.startswith('b') and int(sp[1:]) < 64:
+                sp = 'b4096'
+            line(mode, cl, mp, mem, buf, n, ct, sp, body, rq_expect(mode, cl, mp, parts, body))
+
+    # B. declared length and bytes that arrive disagree / truncated / trailing bytes: never delivered
+    for i in range(ctx.scale(250, 3000)):
+        key = gen_key(rng)
+        parts = gen_parts(rng, key, rng.choice([0, 1, 2, 3]), rng.choice([0, 3, 10, 30]))
+        body = encode_body(rng, key, parts, PLAIN if i % 2 else FANCY)
+        ct = enc_ct(rng, key, PLAIN)
+        n = len(body)
+        mode = rng.choice('nnmmr')
+        r = rng.randrange(4)
+        if r == 0:      # fewer bytes declared than the well-formed body has: the closing delimiter is cut off
+            declared, sent = rng.randrange(1, n), body
+        elif r == 1:    # more declared than sent, then the client gives up
+            declared, sent = n + rng.choice([1, 2, 5, 100]), body
+        elif r == 2:    # trailing bytes inside the declared length
+            extra = rng.choice([b'x', b'\r\n', b'\n', b'--', b'\r\n--' + key + b'--\r\n', rbytes(rng, 3)])
+            declared, sent = n + len(extra), body + extra
+        else:           # truncated body declared as it is
+            k = rng.randrange(1, n)
+            declared, sent = k, body[:k]
+        exp = '!' if mode != 'r' else '-'
+        line(mode, 10 ** 6, 10 ** 6, rng.choice([0, 5, 10 ** 6]), rng.choice(BUFS), declared, ct, cuts_for(sent, key), sent, exp)
+
+    # C. malformed multipart (mutated), odd content types: correspondence + protocol invariants only
+    for i in range(ctx.scale(250, 3000)):
+        key = gen_key(rng)
+        parts = gen_parts(rng, key, rng.choice([1, 2, 3]), rng.choice([0, 3, 10, 30]))
+        body = encode_body(rng, key, parts, FANCY)
+        ct = enc_ct(rng, key, FANCY)
+        for _ in range(rng.randrange(1, 3)):
+            body = mutate(rng, body)
+        if rng.random() < 0.15:
+            ct = mutate(rng, ct)
+        ct = ct.replace(b'\0', b'x')
+        fields = [len(p[3]) for p in parts if not p[2]]
+        cl = rng.choice([10 ** 6, 10 ** 6] + [max(0, f + d) for f in fields for d in (-1, 0, 1)])
+        if body:
+            line(rng.choice('nmr'), cl, 10 ** 6, rng.choice([0, 5, 10 ** 6]), rng.choice(BUFS), len(body), ct, cuts_for(body, key), body, '-')
+
+    # D. urlencoded forms and other content types (read_full path), content_length_limit around the size
+    for i in range(ctx.scale(150, 2000)):
+        npairs = rng.choice([0, 1, 1, 2, 3, 5])
+        pairs = []
+        for _ in range(npairs):
+            k = bytes(rng.choice(b'abcXYZ019 &=%+\xe9\x00;') for _ in range(rng.randrange(1, 6)))
+            v = bytes(rng.choice(b'abcXYZ019 &=%+\xe9\x00;\r\n') for _ in range(rng.randrange(0, 9)))
+            pairs.append((k, v))
+        body = b'&'.join(urlenc(rng, k) + b'=' + urlenc(rng, v) for k, v in pairs)
+        if pairs and rng.random() < 0.2:
+            body += b'&'
+        wf = True
+        if rng.random() < 0.25:
+            body = mutate(rng, body)
+            wf = False
+        n = len(body)
+        ctk = rng.choice([b'application/x-www-form-urlencoded', b'Application/X-WWW-Form-UrlEncoded; charset=utf-8', b'text/plain', b'application/json',
+                          b'multipart/mixed; boundary=x', b'application/x-www-form-urlencoded2', b''])
+        mode = rng.choice('nnnmr')
+        cl = rng.choice([10 ** 6, n - 1, n, n + 1])
+        if not wf or n == 0:
+            exp = '-'
+        elif n > cl:
+            exp = '413'
+        elif mode == 'r' or not ctk.lower().startswith(b'application/x-www-form-urlencoded') or ctk.endswith(b'2'):
+            exp = '200u/0'
+        else:
+            sp = sorted(hexs(k) + '=' + hexs(v) for k, v in pairs)
+            exp = '200u/%d%s' % (len(sp), ''.join('/' + x for x in sp))
+        line(mode, cl, rng.choice([0, 10 ** 6]), 0, rng.choice(BUFS), n, ctk, random_cuts(rng, n, rng.randrange(0, 4)) if n > 1 else '-', body, exp)
+    return cases
+
 # ------------------------------------------------------------------------------------------------
 # oracle: the property on the implementation's answer alone
 # ------------------------------------------------------------------------------------------------
@@ -433,9 +579,129 @@ def parse_out(o):
     return r
 
 
+
+def parse_rq(o):
+    t = o.split()
+    r = {'status': t[1]}
+    i = 2
+    assert t[i] == 'P'
+    n = int(t[i + 1]); r['post'] = t[i + 2:i + 2 + n]; i += 2 + n
+    assert t[i] == 'F'
+    n = int(t[i + 1]); r['files'] = [tuple(x.split(',')) for x in t[i + 2:i + 2 + n]]; i += 2 + n
+    assert t[i] == 'L'
+    i += 1
+    r['new'] = int(t[i][4:]); i += 1
+    rd = t[i][6:]; i += 1
+    if ':' in rd:
+        k, _, lst = rd.partition(':')
+        r['ready'] = [tuple(x.split(',')) for x in lst.split(';')]
+        assert len(r['ready']) == int(k)
+    else:
+        r['ready'] = []
+        assert int(rd) == 0
+    r['end'] = int(t[i][4:]); i += 1
+    r['err'] = int(t[i][4:]); i += 1
+    r['raw'] = t[i][4:]; i += 1
+    a, b = t[i][4:].split(','); r['tmp_main'], r['tmp_after'] = int(a), int(b); i += 1
+    r['flags'] = t[i:]
+    return r
+
+
+def oracle_rq(case, out):
+    c = case.split()
+    mode, cl, mp, mem, buf, declared = c[1], int(c[2]), int(c[3]), int(c[4]), int(c[5]), int(c[6])
+    body = unhex(c[9])
+    expect = c[10] if len(c) > 10 else '-'
+    if out.startswith('<crash'):
+        return ('crash-rq', 'service harness died on this request: ' + out)
+    try:
+        r = parse_rq(out)
+    except Exception as e:
+        return ('bad-output', 'cannot parse service harness answer (%s): %s' % (e, out[:200]))
+    st = r['status']
+    if r['flags']:
+        return ('request-protocol-' + r['flags'][0].lower(), 'the request/filter protocol was broken: ' + ' '.join(r['flags']))
+    if st not in ('200', '400', '413', 'none'):
+        return ('unexpected-status-' + st, 'status %s for an upload request' % st)
+    if r['tmp_after'] != 0:
+        return ('temp-file-left-behind', '%d temporary upload files still exist after the request was destroyed' % r['tmp_after'])
+    filt = declared > 0 and mode in 'mr'
+    if st == '200':
+        want_tmp = sum(1 for f in r['files'] if (0 if f[3] == '-' else len(f[3]) // 2) > mem)
+        if r['tmp_main'] != want_tmp:
+            return ('spill-rule', '%d temporary files while %d uploaded files exceed file_in_memory_limit %d' % (r['tmp_main'], want_tmp, mem))
+        if (r['end'], r['err']) != ((1, 0) if filt else (0, 0)):
+            return ('filter-end-protocol', 'accepted request: on_end_of_content=%d on_error=%d' % (r['end'], r['err']))
+        if len(body) < declared:
+            return ('delivered-before-declared-length', 'application ran after %d of %d declared bytes' % (len(body), declared))
+    else:
+        if (r['end'], r['err']) != ((0, 1) if filt else (0, 0)):
+            return ('filter-end-protocol', 'refused request: on_end_of_content=%d on_error=%d' % (r['end'], r['err']))
+    if mode == 'r' and declared > 0:
+        want = body[:declared] if st in ('200', 'none') else b''
+        if st != '413' and unhex(r['raw']) != want:
+            return ('raw-filter-bytes', 'raw filter saw %d bytes that are not the %d body bytes read' % (len(unhex(r['raw'])), len(want)))
+        if st == '413' and r['raw'] != '-':
+            return ('raw-filter-bytes', 'raw filter saw data of a request refused for its declared length')
+    elif r['raw'] != '-':
+        return ('raw-filter-bytes', 'raw data reported without a raw filter')
+    is_mp = unhex(c[7]).lstrip(b' \t').lower().startswith(b'multipart/form-data')
+    if mode == 'm' and not is_mp:
+        if r['new'] or r['ready']:
+            return ('filter-called-without-multipart', 'multipart filter events for a body that is not multipart/form-data')
+    elif mode == 'm':
+        if st == '200':
+            seen = r['ready']
+            if r['new'] != len(seen):
+                return ('filter-new-vs-ready', 'on_new_file called %d times, on_data_ready %d times' % (r['new'], len(seen)))
+            got_files = [f for f in seen if f[2] != '-']
+            got_post = sorted(f[0] + '=' + f[3] for f in seen if f[2] == '-')
+            if got_files != r['files'] or got_post != sorted(r['post']):
+                return ('filter-sees-other-content', 'entries seen by the multipart filter differ from those delivered to the application')
+        elif not (len(r['ready']) <= r['new'] <= len(r['ready']) + 1):
+            return ('filter-new-vs-ready', 'on_new_file called %d times, on_data_ready %d times' % (r['new'], len(r['ready'])))
+    elif r['new'] or r['ready']:
+        return ('filter-called-without-filter', 'multipart filter events without a multipart filter')
+    if expect == '-':
+        return None
+    if expect == '!':
+        if st == '200':
+            return ('malformed-delivered', 'a body that is truncated / longer or shorter than declared / followed by trailing bytes was accepted')
+        if st == '413':
+            return ('wrong-refusal-code', '413 for a malformed body within all limits')
+        return None
+    e = expect.split('/')
+    if e[0] in ('400', '413'):
+        if st != e[0]:
+            return ('limit-not-enforced' if st == '200' else 'wrong-refusal-code', 'status %s, expected %s (cl=%d mp=%d declared=%d)' % (st, e[0], cl, mp, declared))
+        return None
+    if st != '200':
+        return ('well-formed-refused', 'a well-formed body within the limits got status %s (cl=%d mp=%d declared=%d)' % (st, cl, mp, declared))
+    n = int(e[1])
+    if e[0] == '200u':
+        if r['files'] or sorted(r['post']) != sorted(e[2:2 + n]):
+            return ('wrong-urlencoded-fields', 'form fields delivered differ from those encoded: %s vs %s' % (r['post'][:5], e[2:7]))
+        return None
+    want = [tuple(e[2 + 4 * i:6 + 4 * i]) for i in range(n)]
+    wfiles = [w for w in want if w[2] != '-']
+    wpost = sorted(w[0] + '=' + w[3] for w in want if w[2] == '-')
+    # request::post() is a multimap: entries sorted by name, equal names in order
+    if len(r['files']) != len(wfiles) or len(r['post']) != len(wpost):
+        return ('wrong-number-of-entries', '%d files + %d fields delivered, %d + %d encoded' % (len(r['files']), len(r['post']), len(wfiles), len(wpost)))
+    for i, (g, w) in enumerate(zip(r['files'], wfiles)):
+        for j, what in enumerate(('name', 'filename', 'mime', 'content')):
+            if g[j] != w[j]:
+                return ('wrong-' + what, 'file %d: %s delivered differs from the one encoded (got %s, want %s)' % (i, what, g[j][:80], w[j][:80]))
+    if sorted(r['post']) != wpost:
+        return ('wrong-content', 'form fields delivered differ from those encoded')
+    return None
+
+
 def oracle(case, out):
     c = case.split()
     op = c[0]
+    if op == 'rq':
+        return oracle_rq(case, out)
     if out.startswith('<crash'):
         return ('crash-' + op, 'harness died on this input: ' + out)
     if not out.startswith(op + ' '):
@@ -513,12 +779,18 @@ def oracle(case, out):
 
 def nontrivial(case, out):
     c = case.split()
+    if c[0] == 'rq':
+        return c[9] != '-'
     body = c[4] if c[0] == 'mp' else c[3]
     return body != '-' and ' refused' not in out
 
 
 def classify(case, out):
     c = case.split()
+    if c[0] == 'rq':
+        e = c[10] if len(c) > 10 else '-'
+        kind = 'malformed' if e == '-' else 'must-refuse' if e == '!' else 'urlencoded' if e.startswith('200u') else 'wellformed'
+        return 'rq:%s:mode-%s:%s' % (kind, c[1], out.split()[1] if len(out.split()) > 1 else '?')
     body = c[4] if c[0] == 'mp' else c[3]
     n = 0 if body == '-' else len(body) // 2
     b = '<=300' if n <= 300 else '<=6000' if n <= 6000 else '<=70000' if n <= 70000 else '>70000'
@@ -526,6 +798,17 @@ def classify(case, out):
     st = out.split()[2] if c[0] == 'all2' and len(out.split()) > 2 else out.split()[1] if len(out.split()) > 1 else '?'
     cuts = 'all2' if c[0] == 'all2' else ('1chunk' if c[3] == '-' else 'b1' if c[3] == 'b1' else 'blocks' if c[3][0] == 'b' else 'cuts')
     return '%s:%s:%s:%s' % (kind, b, cuts, st)
+
+
+RULE = ('generated: (1) well-formed multipart bodies from an independent Python encoder (0..10 parts, contents from random bytes and '
+        'adversarial CR/LF/dash/boundary-prefix runs never containing the delimiter, quoted/unquoted/escaped header parameters, header '
+        'case/whitespace/order variation, keys of 1..70 chars incl. dashes and repeated patterns) fed to multipart_parser under EVERY 2-cut '
+        '(bodies <= 300 bytes), 1-byte chunks, block sizes up to 64 KiB, random cuts and cuts aimed at every CR / delimiter / header terminator; '
+        '(2) truncations and trailing bytes (must be refused); (3) mutated bodies, odd Content-Type and part headers (correspondence only); '
+        '(4) the same families as whole requests through a running cppcms::service over SCGI (modes: no filter / multipart_filter / '
+        'raw_content_filter; content_length_limit, multipart_form_data_limit, file_in_memory_limit swept around the sizes in the body; declared '
+        'length = / < / > bytes sent; read buffer 1..64 KiB; urlencoded and other content types). A case is non-trivial when it has a '
+        'non-empty body and the Content-Type was accepted; distinct = distinct case lines (md5).')
 
 
 def run(ctx):
@@ -549,21 +832,33 @@ def run(ctx):
     if not exe:
         ctx.broke('harness build failed', err)
         return
+    sexe, err = vlib.build_harness('C12_service', ['C12_service.cpp'], extra=['-ldl'])
+    if not sexe:
+        ctx.broke('service harness build failed', err)
+        return
     mexe, err = vlib.build_model('C12', 'C12_driver.ml', 'c12m')
     if not mexe:
         ctx.broke('model extraction/build failed', err)
     if ctx.replay_cases is not None:
         cases = ctx.replay_cases
     else:
-        cases = vlib.corpus_cases('C12') + gen_cases(ctx)
+        cases = vlib.corpus_cases('C12') + gen_cases(ctx) + gen_rq_cases(ctx)
+    pcases = [c for c in cases if not c.startswith('rq ')]
+    rcases = [c for c in cases if c.startswith('rq ')]
     tmp = os.path.join(ctx.workdir, 'uploads-%d' % os.getpid())
     shutil.rmtree(tmp, ignore_errors=True)
     os.makedirs(tmp)
-    ctx.coverage['rule'] = 'PLACEHOLDER'
+    ctx.coverage['rule'] = RULE
     ctx.coverage['exhaustive'] = False
     _agree.clear()
     try:
-        vlib.differential(ctx, cases, exe, mexe, oracle, nontrivial, classify, impl_env={'C12_TMPDIR': tmp})
+        if pcases:
+            vlib.differential(ctx, pcases, exe, mexe, oracle, nontrivial, classify, impl_env={'C12_TMPDIR': tmp},
+                              what='correspondence model vs multipart_parser')
+        if rcases:
+            vlib.differential(ctx, rcases, sexe, mexe, oracle, nontrivial, classify, impl_env={'C12_TMPDIR': tmp},
+                              what='correspondence model vs http::request inside a running service', jobs=8)
+        ctx.coverage['two_cut_executions'] = sum(max(0, (len(c.split()[3]) // 2) - 1) for c in pcases if c.startswith('all2 ') and c.split()[3] != '-')
         left = [f for _, _, fs in os.walk(tmp) for f in fs]
         if left:
             ctx.fail('temp-file-left-behind', 'files left in the scratch upload directory after all harness processes ended: %s' % left[:5],
